@@ -99,6 +99,20 @@ pub fn show_state(r: &Result<(), ParseState>) -> String {
 }
 
 pub fn parse(rest: &str) -> String {
+    parse_via(rest, 0)
+}
+
+/// the free function `binary::parse_bytes`
+pub fn parseb(rest: &str) -> String {
+    parse_via(rest, 1)
+}
+
+/// the free function `binary::parse_words` (byte length must be a multiple of four)
+pub fn parsew(rest: &str) -> String {
+    parse_via(rest, 2)
+}
+
+fn parse_via(rest: &str, entry: u8) -> String {
     let mut it = rest.split(' ').filter(|x| !x.is_empty());
     let bytes = match crate::util::try_unhex(it.next().unwrap_or("-")) {
         Some(b) => b,
@@ -113,7 +127,17 @@ pub fn parse(rest: &str) -> String {
         script.push((p[0].parse().unwrap(), p[1].chars().next().unwrap()));
     }
     let mut c = Scripted { script, calls: 0, trace: String::new(), header: None, insts: vec![] };
-    let r = Parser::new(&bytes, &mut c).parse();
+    let r = match entry {
+        0 => Parser::new(&bytes, &mut c).parse(),
+        1 => rspirv::binary::parse_bytes(&bytes, &mut c),
+        _ => {
+            if bytes.len() % 4 != 0 {
+                return "bad-request".to_string();
+            }
+            let words: Vec<u32> = bytes.chunks(4).map(|b| u32::from_le_bytes([b[0], b[1], b[2], b[3]])).collect();
+            rspirv::binary::parse_words(&words, &mut c)
+        }
+    };
     let hdr = c.header.as_ref().map_or("-".to_string(), |h| {
         format!("{},{},{},{},{}", h.magic_number, h.version, h.generator, h.bound, h.reserved_word)
     });
